@@ -223,33 +223,34 @@ def attribute(clause, ctx):
     return {"C05"}
 
 
-def index_obs(obs_path):
-    """line number (1-based, as the judge counts) -> context."""
-    ctx = []
-    job = fork = None
-    fam = tag = None
+def index_obs(obs_path, want):
+    """context of the trace lines in `want` (1-based, as the judge counts): one streaming pass, only reset / crash
+    lines and the wanted lines are parsed (traces have millions of lines in the thorough tier)."""
+    out = {}
+    job = fork = fam = tag = None
     infl = "none"
     ncrash = 0
     with open(obs_path) as f:
-        for ln in f:
-            e = json.loads(ln)
-            if e["ev"] == "reset":
+        for n, ln in enumerate(f, 1):
+            if ln.startswith('{"ev":"reset"') or '"ev":"reset"' in ln[:40]:
+                e = json.loads(ln)
                 job, fam, fork, infl, ncrash = e["id"], e["family"], None, "none", 0
                 tag = e.get("tag")
-            elif e["ev"] == "crash":
+            elif '"ev":"crash"' in ln:
+                e = json.loads(ln)
                 fork, infl = e["fork"], e["op"].get("ev", "none")
                 ncrash = fork.count("/")
-            ctx.append((job, fork, fam, tag, infl, ncrash, e))
-    return ctx
+            if n in want:
+                out[n] = (job, fork, fam, tag, infl, ncrash, json.loads(ln))
+    return out
 
 
 def classify(viols, obs_path):
-    ctx = index_obs(obs_path)
+    ctx = index_obs(obs_path, {v["line"] for v in viols})
     out = []
     for v in viols:
-        job, fork, fam, tag, infl, ncrash, e = ctx[v["line"] - 1]
+        job, fork, fam, tag, infl, ncrash, e = ctx[v["line"]]
         c = {"family": fam, "tag": tag, "inflight": infl, "ncrash": ncrash, "trunc": bool(v.get("trunc"))}
-        # did this run contain a tail truncation? (cheap scan backwards to the reset)
         out.append({"line": v["line"], "clause": v["clause"], "job": job, "fork": fork, "family": fam,
                     "tag": tag, "inflight": infl, "ncrash": ncrash, "event": e,
                     "props": None, "_ctx": c})
